@@ -123,14 +123,14 @@ enum Fn {
     AsNumber, TypedPrefix, Ipv4Prefix, Ipv6Prefix, Payload, Config, Updates, Announcement,
     MaxLenValid, NrSpecific, Resize, AggKey,
     Ident, StrOrReplace, PushConverted, FromHandle, PushHandle, ToHandle, SplitKey,
-    CertName, RpkiAsn, Aspa, BgpsecKey,
+    CertName, RpkiAsn, Aspa, BgpsecKey, Rfc8181Uri, CaServiceUri,
 }
 
-const ALL_FNS: [Fn; 23] = [
+const ALL_FNS: [Fn; 25] = [
     Fn::AsNumber, Fn::TypedPrefix, Fn::Ipv4Prefix, Fn::Ipv6Prefix, Fn::Payload, Fn::Config, Fn::Updates, Fn::Announcement,
     Fn::MaxLenValid, Fn::NrSpecific, Fn::Resize, Fn::AggKey,
     Fn::Ident, Fn::StrOrReplace, Fn::PushConverted, Fn::FromHandle, Fn::PushHandle, Fn::ToHandle, Fn::SplitKey,
-    Fn::CertName, Fn::RpkiAsn, Fn::Aspa, Fn::BgpsecKey,
+    Fn::CertName, Fn::RpkiAsn, Fn::Aspa, Fn::BgpsecKey, Fn::Rfc8181Uri, Fn::CaServiceUri,
 ];
 
 impl Fn {
@@ -156,6 +156,8 @@ fn x_ident() -> &'static Ident { const { Ident::make("x") } }
 struct World {
     cert: rpki::repository::cert::Cert,
     mem_seed: u64,
+    /// An empty in-process system (configuration with service_uri https://localhost:3000/, no CAs).
+    sys: kvh::sys::Sys,
 }
 
 /// Calls the real function. `None`: the input is not in the function's domain
@@ -214,6 +216,16 @@ fn call(world: &mut World, f: Fn, input: &[u8]) -> Option<Result<Option<CVal>, C
             CVal::N(d.customer.into_u32() as u128), CVal::L(d.providers.iter().map(|p| CVal::N(p.into_u32() as u128)).collect())]))),
         Fn::BgpsecKey => guarded(|| krill::api::bgpsec::BgpSecAsnKey::from_str(s).ok().map(|k| CVal::L(vec![
             CVal::N(k.asn.into_u32() as u128), CVal::B(k.key.as_slice().to_vec())]))),
+        Fn::Rfc8181Uri => { let cfg = world.sys.krill.config();
+            guarded(|| rpki::ca::idexchange::PublisherHandle::from_str(s).ok().and_then(|h| cfg.rfc8181_uri(&h).ok()).map(|u| CVal::B(u.as_str().as_bytes().to_vec()))) }
+        Fn::CaServiceUri => {
+            // service_uri_for_ca is private: ca_parent_response builds the URI before it looks the CA up;
+            // no CA exists in this system, so a URI that can be built is observed as an error
+            let base = rpki::uri::Https::from_str("https://localhost:3000/").expect("base uri");
+            let mgr = world.sys.krill.ca_manager();
+            guarded(|| rpki::ca::idexchange::CaHandle::from_str(s).ok().and_then(|h|
+                mgr.ca_parent_response(&h, rpki::ca::idexchange::ChildHandle::from_str("x").unwrap(), &base).ok().map(|r| CVal::B(r.to_xml_vec()))))
+        }
     };
     Some(r)
 }
@@ -350,7 +362,7 @@ fn gen_valid(f: Fn, rng: &mut Rng) -> Option<String> {
         }
         Fn::AggKey => if rng.chance(50) { format!("AS{}", asn(rng)) } else { format!("AS{}-{}", asn(rng), asn(rng)) },
         Fn::Ident | Fn::StrOrReplace | Fn::PushConverted => ident(rng),
-        Fn::FromHandle | Fn::PushHandle => handle(rng),
+        Fn::FromHandle | Fn::PushHandle | Fn::Rfc8181Uri | Fn::CaServiceUri => handle(rng),
         Fn::ToHandle => if rng.chance(50) { ident(rng) } else { handle(rng).replace(['/', '\\'], "+") },
         Fn::SplitKey => format!("{}{}-{}", rng.pick(&["", "", "+", "00"]), if rng.chance(20) { u128::MAX - rng.below(3) as u128 } else { rng.next() as u128 >> rng.below(64) }, ident(rng)),
         Fn::CertName => { let d = rng.below(4); let mut s: String = (0..d).map(|_| format!("{}/", ident(rng))).collect(); s.push_str(&ident(rng)); s.push_str(*rng.pick(&[".cer", ".cer", ".cer", ".roa", ""])); s }
@@ -389,7 +401,7 @@ fn seeds(f: Fn) -> Vec<String> {
         }
         Fn::AggKey => s(&["AS64496", "AS64496-2", "AS0", "AS4294967295-4294967295", "AS 12", "AS1-2-3", "AS", "A", "AS-1", "as1", "AS1-"]),
         Fn::Ident | Fn::StrOrReplace | Fn::PushConverted => s(&["abc", "a.b-c_d+e", ".hidden", "_x", "+x", "", "a/b", "x.", "A9", "a b", "..", "-", "ca.json"]),
-        Fn::FromHandle | Fn::PushHandle | Fn::ToHandle => {
+        Fn::FromHandle | Fn::PushHandle | Fn::ToHandle | Fn::Rfc8181Uri | Fn::CaServiceUri => {
             let mut v = s(&["ca", "a/b", "a\\b", "A-b_9", "/", "//a//", "a+b", "a.b", "", "testbed", "a/b\\c/d"]);
             for n in [254usize, 255, 256, 257] { v.push("h".repeat(n)); v.push(format!("{}/", "h".repeat(n - 1))); }
             v
@@ -425,7 +437,11 @@ fn run(args: &Args) -> i32 {
     let dbg_build = ovf;
 
     let cert_der = std::fs::read(format!("{repo}/test-resources/ta.cer")).expect("read test-resources/ta.cer");
-    let mut world = World { cert: rpki::repository::cert::Cert::decode(bytes::Bytes::from(cert_der)).expect("decode ta.cer"), mem_seed: args.seed << 20 };
+    let sys_dir = args.out.join(format!("sys0-{}", std::process::id()));
+    let mut sys_opts = kvh::sys::SysOpts::new(&sys_dir);
+    sys_opts.mem_seed = args.seed.wrapping_mul(6151).wrapping_add(3);
+    let mut world = World { cert: rpki::repository::cert::Cert::decode(bytes::Bytes::from(cert_der)).expect("decode ta.cer"), mem_seed: args.seed << 20,
+        sys: kvh::sys::Sys::open(sys_opts) };
 
     let header = "From KV Require Import base.Tac parse.Str parse.ParseCheck.\nOpen Scope N_scope.";
     let footer = "Eval vm_compute in (failing agrees base_index cases).\nEval vm_compute in (failing c16_ok base_index cases).";
@@ -497,6 +513,8 @@ fn run(args: &Args) -> i32 {
     }
     w.flush();
     let part_a_cases = w.total;
+    drop(world);
+    let _ = std::fs::remove_dir_all(&sys_dir);
 
     // ---- exploration beyond the model (panics there are handed to the driver as impl_failures; panics of
     // part A are reported through the Coq oracle: c16_ok fails on the case)
